@@ -16,12 +16,12 @@ PROPS = {
     },
     "C03": {
         "pkg": "core", "level": "exploration",
-        "quick": {"stages": [st("^TestStore", 1200)]},
+        "quick": {"stages": [st("^TestStore", 1200), st("^TestOracleSelfTestAllowedAnswer", 1500, pkg="model")]},
         "thorough": {"stages": [st("^TestStore", 15000, shards=16, timeout=3000)]},
     },
     "C04": {
         "pkg": "core", "level": "exploration",
-        "quick": {"stages": [st("^TestStore", 3000)]},
+        "quick": {"stages": [st("^TestStore", 3000), st("^TestOracleSelfTestStoreRelation", 1500, pkg="model")]},
         "thorough": {"stages": [st("^TestStore", 40000, shards=16, timeout=3000)]},
     },
     "C05": {
